@@ -387,6 +387,28 @@ example : pivot .A .Z (⟨1, 5, 0, 1⟩ : M2 ℚ) = 0 ∧ pivot .A .Y (⟨1, 5, 
 example : pivot .A .G (⟨2, 3, 5, 0⟩ : M2 ℚ) ≠ 0 ∧ ¬ okc .A .G (⟨2, 3, 5, 0⟩ : M2 ℚ) 1 := by
   norm_num [pivot, okc, ok_A_G, ok_A_H]
 
+/-! ## 7. Constructors of the model classes keep the entries they are given -/
+
+/-- (table check over the complete regenerated table) every scalar argument of the six
+    `TwoPort?Model.__init__` is defaulted only when it is missing (`None`), never because it is falsy -/
+theorem ctorRules_keep_given :
+    Gen.ctorRules = MRep.all.map (fun r => (r.name, [ArgRule.ifNone, .ifNone, .ifNone, .ifNone], [ArgRule.ifNone, .ifNone])) := by
+  decide
+
+/-- a rule that substitutes the default for falsy arguments loses a zero entry … -/
+theorem ifFalsy_loses_zero [DecidableEq K] : ArgRule.ifFalsy.apply (some (0 : K)) = none := by
+  simp [ArgRule.apply]
+
+/-- … the rule the code uses keeps every given value, zero included: the native matrix of
+    `TwoPort?Model(x11, x12, x21, x22, s1, s2)` has exactly the entries and sources given -/
+theorem ctor_keeps_entries [DecidableEq K] (N : MRep) :
+    ∃ e, Gen.ctorRules.lookup N.name = some e ∧ e.1.length = 4 ∧ e.2.length = 2 ∧
+      ∀ r ∈ e.1 ++ e.2, ∀ v : K, r.apply (some v) = some v := by
+  rw [ctorRules_keep_given]
+  cases N <;> refine ⟨_, rfl, rfl, rfl, ?_⟩ <;> intro r hr v <;>
+    simp only [List.cons_append, List.nil_append, List.mem_cons, List.mem_nil_iff, or_false, or_self] at hr <;>
+    subst hr <;> rfl
+
 /-! ## 6. Non-vacuity -/
 def zSample : Stage ℚ := ⟨.Z, ⟨5, 2, 7, 3⟩, 3, -4⟩
 def ySample : Stage ℚ := ⟨.Y, ⟨1, 2, 3, 5⟩, 2, 1⟩
